@@ -36,7 +36,7 @@ try:
         checks = list(dict.fromkeys([prop] + [c for c in meta.get("caught_by", [])]))
         if not meta.get("checks_run", {}).get(prop):
             checks = list(dict.fromkeys(meta.get("caught_by", []) or [prop]))
-        keep = {k: meta[k] for k in ("history",) if k in meta}
+        keep = {k: meta[k] for k in ("history", "superseded") if k in meta}
         rc, out = sh(f"/verif/tools/seed.py {prop} {wt} mutant.diff {demo} '{slug}' --checks \"{' '.join(checks)}\" "
                      f"--needs \"{meta.get('needs_to_manifest', '').replace(chr(34), chr(39))}\"")
         new = json.load(open(d + "meta.json"))
